@@ -592,7 +592,7 @@ func staticSites(fn *ssa.Function, harnessFiles map[string]bool, prog *ssa.Progr
 					continue
 				}
 				switch callee.Name() {
-				case "vAssert", "vAssertK":
+				case "vAssert", "vAssertK", "vAssertNoRace":
 					if k, ok := c.Common().Args[0].(*ssa.Const); ok {
 						ids[strings.Trim(k.Value.ExactString(), "\"")] = true
 					}
